@@ -59,8 +59,8 @@ def header(classes):
         base = " : public %s" % c.base if c.base else ""
         n = c.name
         h += "class %s%s {\nPUBLISHED:\n" % (n, base)
-        h += "  explicit %s(int v = %d) : %s_w(v) { ++g_live; }\n" % (n, c.default_v, ("%s(v), " % c.base) if c.base else "")
-        h += "  %s(const %s &o) : %s_w(o._w) { ++g_live; }\n" % (n, n, ("%s(o), " % c.base) if c.base else "")
+        h += "  explicit %s(int v = %d) : %s_w(v) { ++g_live; for (int i = 0; i < 4; ++i) _slots[i] = v * 10 + i; }\n" % (n, c.default_v, ("%s(v), " % c.base) if c.base else "")
+        h += "  %s(const %s &o) : %s_w(o._w) { ++g_live; for (int i = 0; i < 4; ++i) _slots[i] = o._slots[i]; }\n" % (n, n, ("%s(o), " % c.base) if c.base else "")
         h += "  virtual ~%s() { --g_live; }\n" % n
         h += "  int get_w() const { return _w; }\n  void set_w(int w) { _w = w; }\n  MAKE_PROPERTY(w, get_w, set_w);\n"
         h += "  virtual int who() const { return %d + _w; }\n" % c.who
@@ -82,16 +82,21 @@ def header(classes):
         h += "  int peek_%s(const %s &o) const { return o.get_w() * 2; }\n" % (n.lower(), n)
         h += "  bool operator == (const %s &o) const { return _w == o._w; }\n  bool operator < (const %s &o) const { return _w < o._w; }\n" % (n, n)
         h += "  %s operator + (const %s &o) const { return %s(_w + o._w); }\n" % (n, n, n)
-        h += "  int operator [] (int i) const { return _w * 10 + i; }\n"
+        h += "  int get_num_slots() const { return 4; }\n  int get_slot(int i) const { return _slots[i]; }\n  void set_slot(int i, int v) { _slots[i] = v; }\n"
+        h += "  MAKE_SEQ(get_slots, get_num_slots, get_slot);\n  MAKE_SEQ_PROPERTY(slots, get_num_slots, get_slot, set_slot);\n"
+        h += "  int &operator [] (int i) { return _slots[i]; }\n  int operator [] (int i) const { return _slots[i]; }\n  int size() const { return 4; }\n"
+        h += "  class Inner%s {\n  PUBLISHED:\n    Inner%s() {}\n    int inner_val() const { return %d; }\n  };\n" % (n, n, c.who + 5)
+        h += "  static int twice_%s(int x) { return 2 * x + %d; }\n  static const int limit_%s = %d;\n" % (n.lower(), c.who, n.lower(), c.who + 99)
+        h += "  bool neg_%s(bool b) const { return !b; }\n" % n.lower()
         h += "  unsigned char small_%s(unsigned char c) const { return c; }\n  short sh_%s(short s) const { return s; }\n" % (n.lower(), n.lower())
         h += "  unsigned int ui_%s(unsigned int u) const { return u; }\n  long long ll_%s(long long v) const { return v; }\n" % (n.lower(), n.lower())
         ename = "Mode%s" % n
         h += "  enum %s%s { %s };\n" % ("class " if c.scoped_enum else "", ename, ", ".join("%s = %d" % (a, b) for a, b in c.enum_vals))
         q = (ename + "::") if c.scoped_enum else ""
         h += "  %s flip_%s(%s m) const { return m == %s%s ? %s%s : %s%s; }\n" % (ename, n.lower(), ename, q, c.enum_vals[0][0], q, c.enum_vals[1][0], q, c.enum_vals[0][0])
-        h += "public:\n  int _w;\n};\n"
-    h += "BEGIN_PUBLISH\nint count_live();\n" + "".join("int takes_%s(const %s &o);\n" % (c.name.lower(), c.name) for c in classes) + "END_PUBLISH\n#endif\n"
-    impl = '#include "t.h"\nint g_live = 0;\nint count_live() { return g_live; }\n' + "".join("int takes_%s(const %s &o) { return o.who(); }\n" % (c.name.lower(), c.name) for c in classes)
+        h += "public:\n  int _w;\n  int _slots[4];\n};\n"
+    h += "BEGIN_PUBLISH\nenum GlobalMode { GM_on = 1, GM_off = 2 };\nint gmode(GlobalMode m);\nint count_live();\n" + "".join("int takes_%s(const %s &o);\n" % (c.name.lower(), c.name) for c in classes) + "END_PUBLISH\n#endif\n"
+    impl = '#include "t.h"\nint g_live = 0;\nint count_live() { return g_live; }\nint gmode(GlobalMode m) { return (int)m * 3; }\n' + "".join("const int %s::limit_%s;\n" % (c.name, c.name.lower()) for c in classes) + "".join("int takes_%s(const %s &o) { return o.who(); }\n" % (c.name.lower(), c.name) for c in classes)
     return h, impl
 
 
@@ -187,6 +192,12 @@ def test_script(classes, rng, modname="tmod"):
         # operators
         L.append("p = m.%s(4); q = m.%s(9)" % (n, n))
         L.append("chk('%s operators', (p == m.%s(4)) and (p != q) and (p < q) and not (q < p) and (p + q).get_w() == 13 and p[3] == 43)" % (n, n))
+        L.append("chk('%s sequence', p.get_slots() == (40, 41, 42, 43) and list(p.slots) == [40, 41, 42, 43] and len(p.slots) == 4 and p.getSlots() == p.get_slots())" % n)
+        L.append("p[1] = 77; p.slots[2] = 88; chk('%s item assignment', p[1] == 77 and p.get_slot(1) == 77 and p.get_slot(2) == 88 and p[-1] == 43, (p[1], p.get_slot(2)))" % n)
+        L.append("chk('%s index errors', raises(IndexError, lambda: p[4]) is True and raises(IndexError, lambda: p.slots[7]) is True and raises(TypeError, lambda: p['x']) is True)" % n)
+        L.append("chk('%s nested class', m.%s.Inner%s().inner_val() == %d and m.%s.Inner%s().innerVal() == %d)" % (n, n, n, c.who + 5, n, n, c.who + 5))
+        L.append("chk('%s static method and constant', m.%s.twice_%s(4) == %d and p.twice_%s(1) == %d and m.%s.limit_%s == %d)" % (n, n, ln, 8 + c.who, ln, 2 + c.who, n, ln, c.who + 99))
+        L.append("chk('%s bool parameter', p.neg_%s(True) is False and p.neg_%s(0) is True and p.neg_%s([]) is True)" % (n, ln, ln, ln))
         # constness
         L.append("cst = o.self_const(); mut = o.self_mut()")
         L.append("chk('%s const wrapper', cst.this_const == 1 and mut.this_const == 0 and cst.get_w() == o.get_w())" % n)
@@ -213,6 +224,7 @@ def test_script(classes, rng, modname="tmod"):
         L.append("chk('%s objects alive', m.count_live() == base + %d and sum(x.get_w() for x in ys) == 2 * sum(range(20)), (m.count_live(), base))" % (n, 60 * len(chain(classes, n))))
         L.append("del xs, ys, zs; gc.collect(); chk('%s no leak, no double free', m.count_live() == base, (m.count_live(), base))" % n)
         L.append("")
+    L.append("chk('module-level enum and function', m.GM_on == 1 and m.GMOff == 2 and m.gmode(m.GM_off) == 6 and raises(TypeError, m.gmode, 'x') is True)")
     L.append("print('checks=%d failures=%d' % (checks, len(fails)))")
     L.append("sys.exit(1 if fails else 0)")
     return "\n".join(L) + "\n"
